@@ -284,8 +284,9 @@ class Type4Tag(nfc.tag.Tag):
             log.debug("ndef file read flag is %d", rf)
             log.debug("ndef file write flag is %d", wf)
 
-            self._max_le = mle
-            self._max_lc = mlc
+            # commands and responses use short length fields only
+            self._max_le = min(mle, 256)
+            self._max_lc = min(mlc, 255)
             self._capacity = mfs - tag + 2
             self._readable = bool(rf == 0)
             self._writeable = bool(wf == 0)
